@@ -2,6 +2,9 @@
 //   smharness <module>   reads ops on stdin, prints one observation per line.
 use std::io::{self, BufRead, Write};
 
+mod ani;
+pub use sourmash::Error; // `use crate::Error` of the textually included ani_utils.rs (see ani.rs)
+
 use sourmash::encodings::HashFunctions;
 use sourmash::signature::SigsTrait;
 use sourmash::sketch::minhash::{KmerMinHash, KmerMinHashBTree};
@@ -347,8 +350,9 @@ fn main() {
     let args: Vec<String> = std::env::args().collect();
     match args.get(1).map(|s| s.as_str()) {
         Some("twin") => run_twin(),
+        Some("ani") => ani::run(),
         _ => {
-            eprintln!("usage: smharness <twin>");
+            eprintln!("usage: smharness <twin|ani>");
             std::process::exit(2);
         }
     }
